@@ -132,7 +132,7 @@ func c11Gen(t *rapid.T) C11Case {
 			a.Argv = kit.A(pick(t, "consume",
 				[]string{"LPOP", k}, []string{"RPOP", k}, []string{"LPOP", k, "2"}, []string{"LMOVE", k, pick(t, "dst", "q1", "q2", "q3", "out"), "LEFT", "RIGHT"},
 				[]string{"RPOPLPUSH", k, pick(t, "dst2", "q1", "q3", "out")}, []string{"LTRIM", k, "1", "-1"}, []string{"LTRIM", k, "0", "0"}, []string{"DEL", k},
-				[]string{"LLEN", k}, []string{"LRANGE", k, "0", "-1"},
+				[]string{"LLEN", k}, []string{"LRANGE", k, "0", "-1"}, []string{"FLUSHDB"}, []string{"FLUSHALL"}, []string{"RENAME", k, "out"},
 			)...)
 		}
 		c.Actions = append(c.Actions, a)
